@@ -14,6 +14,8 @@ type Plan struct {
 	FlushPm   int            `json:"f7_flush_pm,omitempty"`
 	Clients   [][]Call       `json:"clients"`
 	Churn     int            `json:"churn,omitempty"` // C12: extra calls executed before handed-out strings are re-read
+	Cold      bool           `json:"cold_process,omitempty"` // run as the first thing of a fresh OS process: every lazily filled package-level table of the library is cold
+	FreshAt   int            `json:"fresh_at,omitempty"` // 1-based index of the call of client 0 whose reference is recomputed in a fresh OS process of its own (0: none)
 	Cfg       simsync.Config `json:"cfg"`
 }
 
@@ -27,7 +29,7 @@ func (p *Plan) NCalls() int {
 
 // FreshProcess: the library's built-in cache cannot be reset, so a run that
 // uses it must be the first thing that happens in its process.
-func (p *Plan) FreshProcess() bool { return p.CacheKind == CacheDefault }
+func (p *Plan) FreshProcess() bool { return p.CacheKind == CacheDefault || p.Cold }
 
 // typePool draws n distinct type ids: a few static ones plus dynamic ones.
 func typePool(r *detsim.Rand, n int) []int {
@@ -43,9 +45,28 @@ func typePool(r *detsim.Rand, n int) []int {
 		if !seen[t] {
 			seen[t] = true
 			l = append(l, t)
+			// a type and its same-named twin from another package in one history
+			if tw := twinOf(t); tw >= 0 && !seen[tw] && len(l) < n && r.Chance(1, 2) {
+				seen[tw] = true
+				l = append(l, tw)
+			}
 		}
 	}
 	return l
+}
+
+// twinOf returns the index of the static type with the same Go type name in another package (-1: none).
+func twinOf(t int) int {
+	if t < 0 || t >= len(statics) {
+		return -1
+	}
+	n := statics[t].name
+	for i := range statics {
+		if statics[i].name == "Alt"+n || "Alt"+statics[i].name == n {
+			return i
+		}
+	}
+	return -1
 }
 
 func tagFor(r *detsim.Rand, t int) string {
@@ -63,7 +84,7 @@ func tagFor(r *detsim.Rand, t int) string {
 func genStructCall(r *detsim.Rand, types []int, overrides bool) Call {
 	t := types[r.Intn(len(types))]
 	c := Call{Type: t, Val: r.Intn(12)}
-	switch r.Weighted([]int{30, 20, 10, 20, 8, 6, 6}) {
+	switch r.Weighted([]int{30, 20, 10, 20, 8, 6, 6, 5}) {
 	case 0:
 		c.Entry = EStruct
 		if overrides && r.Chance(1, 3) {
@@ -100,6 +121,13 @@ func genStructCall(r *detsim.Rand, types []int, overrides bool) Call {
 		c.Entry = EMyFn
 		c.Tag = tagFor(r, t)
 		c.Fn = r.Intn(2)
+	case 7:
+		c.Entry = EChain
+		c.Tag = tagFor(r, t)
+		c.Rule = r.Intn(len(ruleSets))
+		if overrides {
+			c.Fn = r.Intn(NFnSets)
+		}
 	}
 	if r.Chance(1, 6) {
 		c.Shape = 1 + r.Intn(4)
@@ -181,6 +209,11 @@ func genCache(r *detsim.Rand, p *Plan, allowDefault bool, faults bool) (ntypes i
 func GenC08(r *detsim.Rand, tier string) *Plan {
 	p := &Plan{Prop: "C08"}
 	p.Cfg = simsync.Config{Policy: simsync.PolicyUniform, StallTask: -1, Pool: simsync.PoolFresh}
+	if r.Chance(2, 5) {
+		// swarm: in 2 of 5 histories the pools recycle as well, so that state kept next to the cache
+		// (e.g. a per-validator memo of the last analysed type) is exercised under C08 too
+		p.Cfg.Pool = []simsync.PoolMode{simsync.PoolLIFO, simsync.PoolFIFO, simsync.PoolRandom}[r.Intn(3)]
+	}
 	nt := genCache(r, p, true, true)
 	if p.CacheKind != CacheDefault && p.CacheKind != CacheMiss && r.Chance(1, 6) {
 		p.FlushPm = 30
@@ -212,7 +245,18 @@ func GenC08(r *detsim.Rand, tier string) *Plan {
 		}
 	}
 	p.Clients = [][]Call{calls}
+	freshSample(r, p, tier)
 	return p
+}
+
+// freshSample: in the thorough tier a sample of descriptors is additionally evaluated in a fresh OS process each.
+func freshSample(r *detsim.Rand, p *Plan, tier string) {
+	if p.NCalls() <= 200 && r.Chance(1, 12) {
+		p.Cold = true
+	}
+	if tier == "thorough" && len(p.Clients) > 0 && len(p.Clients[0]) > 0 && r.Chance(1, 40) {
+		p.FreshAt = 1 + r.Intn(len(p.Clients[0]))
+	}
 }
 
 func genPoolCfg(r *detsim.Rand, c *simsync.Config, recycleHeavy bool) {
@@ -273,6 +317,7 @@ func GenC12(r *detsim.Rand, tier string) *Plan {
 	}
 	p.Clients = [][]Call{calls}
 	p.Churn = []int{0, 50, 300, 2000}[r.Weighted([]int{2, 4, 3, 1})]
+	freshSample(r, p, tier)
 	return p
 }
 
@@ -335,5 +380,6 @@ func GenC11(r *detsim.Rand, tier string) *Plan {
 	genPoolCfg(r, &c, false)
 	c.PYields = r.Chance(1, 3)
 	p.Cfg = c
+	freshSample(r, p, tier)
 	return p
 }
